@@ -44,6 +44,10 @@ type Ctx struct {
 	fnCache  map[*ssa.Function]*fnInfo
 	effects  *effectIndex
 	allFuncs map[*ssa.Function]bool
+	origOf   map[ssa.Instruction]ssa.Instruction // canonical (cloned) instruction -> original instruction
+	calleeIx map[ssa.CallInstruction][]*ssa.Function
+	callerIx map[*ssa.Function][]ssa.CallInstruction
+	canon    *canonStats
 }
 
 func load(repo, goos, tier string) (*Ctx, error) {
@@ -98,6 +102,9 @@ func load(repo, goos, tier string) (*Ctx, error) {
 		c.byName[fn.String()] = fn
 	}
 	c.CG = vta.CallGraph(c.allFuncs, cha.CallGraph(prog))
+	if os.Getenv("SPOKCHECK_NO_CANON") == "" {
+		c.canon = c.canonicalise(5)
+	}
 	return c, nil
 }
 
@@ -337,41 +344,65 @@ func calleeName(cc *ssa.CallCommon) string {
 	return ""
 }
 
+// buildCallIndex resolves every call site of the canonical module functions: static callees directly, dynamic ones
+// through the VTA call graph (looked up under the original instruction the site was copied from).
+func (c *Ctx) buildCallIndex() {
+	if c.calleeIx != nil {
+		return
+	}
+	c.calleeIx = map[ssa.CallInstruction][]*ssa.Function{}
+	c.callerIx = map[*ssa.Function][]ssa.CallInstruction{}
+	for _, f := range c.ModFuncs {
+		for _, site := range callSites(f) {
+			var out []*ssa.Function
+			if g := site.Common().StaticCallee(); g != nil {
+				out = []*ssa.Function{g}
+			} else if mc, ok := site.Common().Value.(*ssa.MakeClosure); ok {
+				out = []*ssa.Function{mc.Fn.(*ssa.Function)}
+			} else {
+				key := ssa.Instruction(site)
+				if o, ok := c.origOf[key]; ok {
+					key = o
+				}
+				host := key.Parent()
+				if n := c.CG.Nodes[host]; n != nil {
+					seen := map[*ssa.Function]bool{}
+					for _, e := range n.Out {
+						if ssa.Instruction(e.Site) == key && e.Callee.Func != nil && !seen[e.Callee.Func] {
+							seen[e.Callee.Func] = true
+							out = append(out, e.Callee.Func)
+						}
+					}
+				}
+			}
+			c.calleeIx[site] = out
+			for _, g := range out {
+				c.callerIx[g] = append(c.callerIx[g], site)
+			}
+		}
+	}
+	for g := range c.callerIx {
+		ss := c.callerIx[g]
+		sort.Slice(ss, func(i, j int) bool { return ss[i].Pos() < ss[j].Pos() })
+	}
+}
+
 // callees returns every function the call may invoke: the static callee, or the VTA targets.
 func (c *Ctx) callees(site ssa.CallInstruction) []*ssa.Function {
+	c.buildCallIndex()
+	if out, ok := c.calleeIx[site]; ok {
+		return out
+	}
 	if f := site.Common().StaticCallee(); f != nil {
 		return []*ssa.Function{f}
 	}
-	var out []*ssa.Function
-	n := c.CG.Nodes[site.Parent()]
-	if n == nil {
-		return nil
-	}
-	for _, e := range n.Out {
-		if e.Site == site && e.Callee.Func != nil {
-			out = append(out, e.Callee.Func)
-		}
-	}
-	return out
+	return nil
 }
 
-// callersOf returns the module call sites that may call fn.
+// callersOf returns the module call sites (in canonical bodies) that may call fn.
 func (c *Ctx) callersOf(fn *ssa.Function) []ssa.CallInstruction {
-	n := c.CG.Nodes[fn]
-	if n == nil {
-		return nil
-	}
-	var out []ssa.CallInstruction
-	seen := map[ssa.CallInstruction]bool{}
-	for _, e := range n.In {
-		if e.Site == nil || !inModule(e.Caller.Func) || seen[e.Site] {
-			continue
-		}
-		seen[e.Site] = true
-		out = append(out, e.Site)
-	}
-	sort.Slice(out, func(i, j int) bool { return out[i].Pos() < out[j].Pos() })
-	return out
+	c.buildCallIndex()
+	return c.callerIx[fn]
 }
 
 // callSites lists every call instruction (call, go, defer) of fn, in block order.
@@ -401,8 +432,7 @@ func callsTo(fn *ssa.Function, names ...string) []ssa.CallInstruction {
 	return out
 }
 
-// reachesFn reports whether from can reach to through the call graph, staying inside the module
-// for intermediate nodes.
+// reachesFn reports whether from can reach to through call sites of canonical module functions.
 func (c *Ctx) reachesFn(from, to *ssa.Function) bool {
 	seen := map[*ssa.Function]bool{}
 	var walk func(f *ssa.Function) bool
@@ -410,20 +440,15 @@ func (c *Ctx) reachesFn(from, to *ssa.Function) bool {
 		if f == to {
 			return true
 		}
-		if seen[f] {
+		if seen[f] || !inModule(f) {
 			return false
 		}
 		seen[f] = true
-		if !inModule(f) {
-			return false
-		}
-		n := c.CG.Nodes[f]
-		if n == nil {
-			return false
-		}
-		for _, e := range n.Out {
-			if walk(e.Callee.Func) {
-				return true
+		for _, site := range callSites(f) {
+			for _, g := range c.callees(site) {
+				if walk(g) {
+					return true
+				}
 			}
 		}
 		return false
